@@ -1138,14 +1138,22 @@ void filter_mapping (svalue_t * arg, int num_arg) {
 
 mapping_t* compose_mapping (mapping_t * m1, mapping_t * m2, unsigned short flag) {
 
-  mapping_node_t *elt, *elt2, **a, **b = m2->table, **prev;
+  mapping_node_t *elt, *elt2, **a, **b, **prev;
   unsigned short j = m1->table_size, deleted = 0;
-  unsigned short mask = m2->table_size;
+  unsigned short mask;
+  mapping_t *self_copy = NULL;
   svalue_t *sv;
 
   if (flag)
     m1 = copyMapping (m1);
+  else if (m1 == m2)
+    {
+      /* m *= m: composing in place would look values up among the entries it has already replaced */
+      m2 = self_copy = copyMapping (m2);
+    }
   a = m1->table;
+  b = m2->table;
+  mask = m2->table_size;
 
   do
     {
@@ -1192,6 +1200,9 @@ mapping_t* compose_mapping (mapping_t * m1, mapping_t * m2, unsigned short flag)
       total_mapping_nodes -= deleted;
       total_mapping_size -= deleted * sizeof (mapping_node_t);
     }
+
+  if (self_copy)
+    free_mapping (self_copy);
 
   if (flag)
     return m1;
